@@ -1435,3 +1435,64 @@ impl Handler {
         }
     }
 }
+
+#[cfg(feature = "verif-hooks")]
+impl Handler {
+    /// Verification hook: identical to `spawn`, but over a virtual socket.
+    pub async fn spawn_virtual(
+        enr: Arc<RwLock<Enr>>,
+        key: Arc<RwLock<CombinedKey>>,
+        config: Config,
+        listen_sockets: Vec<SocketAddr>,
+    ) -> Result<(HandlerReturn, socket::VirtualWire), std::io::Error> {
+        let (exit_sender, exit) = oneshot::channel();
+        let (handler_send, service_recv) = mpsc::unbounded_channel();
+        let (service_send, handler_recv) = mpsc::channel(50);
+        let filter_expected_responses = Arc::new(RwLock::new(HashMap::new()));
+        let node_id = enr.read().node_id();
+        let filter_config = FilterConfig {
+            enabled: config.enable_packet_filter,
+            rate_limiter: config.filter_rate_limiter.clone(),
+            max_nodes_per_ip: config.filter_max_nodes_per_ip,
+            max_bans_per_ip: config.filter_max_bans_per_ip,
+        };
+        let socket_config = socket::SocketConfig {
+            executor: config.executor.clone().expect("Executor must exist"),
+            filter_config,
+            listen_config: config.listen_config.clone(),
+            local_node_id: node_id,
+            protocol_identity: config.protocol_identity,
+            expected_responses: filter_expected_responses.clone(),
+            ban_duration: config.ban_duration,
+        };
+        let (socket, wire) = Socket::new_virtual(socket_config).await?;
+        config
+            .executor
+            .clone()
+            .expect("Executor must be present")
+            .spawn(Box::pin(async move {
+                let mut handler = Handler {
+                    request_retries: config.request_retries,
+                    node_id,
+                    protocol_identity: config.protocol_identity,
+                    enr,
+                    key,
+                    active_requests: ActiveRequests::new(config.request_timeout),
+                    pending_requests: HashMap::new(),
+                    filter_expected_responses,
+                    sessions: LruTimeCache::new(
+                        config.session_timeout,
+                        Some(config.session_cache_capacity),
+                    ),
+                    active_challenges: HashMapDelay::new(config.request_timeout),
+                    service_recv,
+                    service_send,
+                    listen_sockets: listen_sockets.into_iter().collect(),
+                    socket,
+                    exit,
+                };
+                handler.start().await;
+            }));
+        Ok(((exit_sender, handler_send, handler_recv), wire))
+    }
+}
